@@ -804,3 +804,200 @@ def r_serialisation_complete(repo, rep, R, targets, consequence):
         rep.check(not hits, R, '%s:%s %s' % (rel, hits[0][0].lineno if hits else cls.lineno, cname), '%s:%s:serialisation' % (rel, cname),
                   '%s is pickled and copied %s: every field its constructor sets travels' % (cname, 'by its own methods %s, which carry every field' % own if own else 'field by field (no method of its own)'),
                   '%s -- %s' % ('; '.join(t for _, t in hits), consequence))
+
+
+# ---------------------------------------------------------------------------------------------------------------------
+# truth value of an XML element
+# ---------------------------------------------------------------------------------------------------------------------
+ELEMENT_TRUTH_EXAMPLE = '''
+def build(flat):
+    root = flat.find('span')
+    return root
+
+
+def assign(doc):
+    tree = build(doc)
+    if not tree:
+        raise ValueError('no tree')
+    return tree
+'''
+
+
+def element_truth_tests(tree, known=(), collect=None):
+    """`if x` / `if not x` / `x and ..` / `assert x` on a name that holds an XML element: the truth value of an (lxml or
+    ElementTree) element is "has children", not "is there" -- a terminal span, a token, the tree of a one-word sentence are
+    false.  -> [(test node, function, name, where it was bound)].  A name holds an element when it is bound only from
+    etree.Element / SubElement / fromstring / getroot, `.find(..)`, `deepcopy` of such a name, element `[k]` of an
+    xpath / findall result, or a call of a function of the module whose every return value is such a name."""
+    fns = {f.name: f for f in tree.body if isinstance(f, ast.FunctionDef)}
+    returns_element = set(known)         # (functions of the other modules looked at, by name)
+
+    def maker(v, env):
+        if isinstance(v, ast.Call):
+            f = src(v.func)
+            if f in ('etree.Element', 'etree.SubElement', 'Element', 'SubElement', 'etree.fromstring', 'fromstring', 'ET.Element', 'ET.SubElement') or f.endswith('.getroot') or f.endswith('.find'):
+                return f
+            if f in ('copy.deepcopy', 'deepcopy', 'copy.copy') and v.args and isinstance(v.args[0], ast.Name) and v.args[0].id in env:
+                return 'a copy of %s' % v.args[0].id
+            if f in ('copy.deepcopy', 'deepcopy') and v.args and maker(v.args[0], env):
+                return 'a copy of an element'
+            if isinstance(v.func, ast.Name) and v.func.id in returns_element:
+                return '%s(..)' % v.func.id
+            if isinstance(v.func, ast.Attribute) and v.func.attr in returns_element and isinstance(v.func.value, ast.Name) and v.func.value.id not in ('self',):
+                return '%s(..)' % src(v.func)
+        if isinstance(v, ast.Subscript) and isinstance(v.slice, ast.Constant) and isinstance(v.slice.value, int):
+            b = v.value
+            if isinstance(b, ast.Call) and (src(b.func).endswith('.xpath') or src(b.func).endswith('.findall')):
+                return 'an element of %s' % src(b.func)
+            if isinstance(b, ast.Name) and env.get(b.id, '').startswith('list:'):
+                return 'an element of %s' % b.id
+        if isinstance(v, ast.Name) and v.id in env and not env[v.id].startswith('list:'):
+            return env[v.id]
+        return None
+
+    def env_of(fn):
+        env = {}
+        for _ in range(3):
+            by_name = {}
+            for a in ast.walk(fn):
+                if isinstance(a, ast.Assign) and len(a.targets) == 1 and isinstance(a.targets[0], ast.Name) and enclosing_function(a) is fn:
+                    by_name.setdefault(a.targets[0].id, []).append(a.value)
+            for nm, vals in by_name.items():
+                ms = [maker(v, env) for v in vals]
+                if all(ms):
+                    env[nm] = ms[0]
+                elif all(isinstance(v, ast.Call) and (src(v.func).endswith('.xpath') or src(v.func).endswith('.findall')) for v in vals):
+                    env[nm] = 'list:' + src(vals[0].func)
+        # loop variables / parameters / other bindings shadow
+        for a in ast.walk(fn):
+            if isinstance(a, (ast.For, ast.comprehension)):
+                for x in ast.walk(a.target):
+                    if isinstance(x, ast.Name):
+                        env.pop(x.id, None)
+        return env
+    for _ in range(3):
+        for name, fn in fns.items():
+            env = env_of(fn)
+            rets = [r.value for r in ast.walk(fn) if isinstance(r, ast.Return) and enclosing_function(r) is fn]
+            some = [r for r in rets if r is not None and not (isinstance(r, ast.Constant) and r.value is None)]
+            if some and all(maker(r, env) for r in some):       # an element, or None for "not there"
+                returns_element.add(name)
+    if collect is not None:
+        collect |= returns_element
+    out = []
+    for fn in [f for f in ast.walk(tree) if isinstance(f, ast.FunctionDef)]:
+        env = {k: v for k, v in env_of(fn).items() if not v.startswith('list:')}
+        if not env:
+            continue
+
+        def truth_uses(e):
+            if isinstance(e, ast.Name) and e.id in env:
+                yield e
+            elif isinstance(e, ast.UnaryOp) and isinstance(e.op, ast.Not):
+                for x in truth_uses(e.operand):
+                    yield x
+            elif isinstance(e, ast.BoolOp):
+                for v in e.values:
+                    for x in truth_uses(v):
+                        yield x
+        for n in ast.walk(fn):
+            if enclosing_function(n) is not fn:
+                continue
+            tests = []
+            if isinstance(n, (ast.If, ast.While, ast.IfExp)):
+                tests.append(n.test)
+            if isinstance(n, ast.Assert):
+                tests.append(n.test)
+            if isinstance(n, ast.Call) and isinstance(n.func, ast.Name) and n.func.id == 'bool' and n.args:
+                tests.append(n.args[0])
+            for t in tests:
+                for x in truth_uses(t):
+                    out.append((x, fn, x.id, env[x.id]))
+    return out
+
+
+def r_element_truth(repo, rep, R, files, consequence):
+    from .core import attach_parents
+    ex = attach_parents(ast.parse(ELEMENT_TRUTH_EXAMPLE))
+    if [(h[2], h[0].lineno) for h in element_truth_tests(ex)] != [('tree', 9)]:
+        raise AnalysisError('the element-truth rule does not match its positive example')
+    n = 0
+    known = set()
+    for _ in range(2):
+        for rel in files:
+            element_truth_tests(repo.module(rel).tree, known, known)
+    for rel in files:
+        mod = repo.module(rel)
+        hits = element_truth_tests(mod.tree, known)
+        n += 1
+        for node, fn, name, how in hits:
+            rep.check(False, R, '%s:%s %s' % (rel, node.lineno, qualname_of(fn)), '%s:%s:element-truth:%s' % (rel, qualname_of(fn), name), '',
+                      '`%s` holds an XML element (%s) and is tested for truth: an element without children is false -- %s' % (name, how, consequence))
+    rep.check(True, R, files[0], 'xml:element-truth', 'no XML element is tested for truth in %d modules (presence is tested with `is None`)' % n, '')
+
+
+# ---------------------------------------------------------------------------------------------------------------------
+# a generator hands out the same container again and again
+# ---------------------------------------------------------------------------------------------------------------------
+YIELD_SHARED_EXAMPLE = '''
+def read(sentences):
+    tokens = []
+    for sentence in sentences:
+        tokens.clear()
+        for t in sentence:
+            tokens.append(t)
+        yield Result(sentence.id, tokens)
+'''
+
+
+def shared_yields(tree):
+    """a generator that yields, from inside a loop, a container it created before the loop and refills in every round:
+    every result holds the same object, so once the caller has collected them (list(..)) they all show the last round's
+    contents.  -> [(yield node, function, name, loop)]"""
+    out = []
+    WR = {'clear', 'append', 'extend', 'insert', 'pop', 'remove', 'update', 'setdefault', 'add', 'discard', 'popitem', 'sort', 'reverse', '__setitem__'}
+    for fn in [f for f in ast.walk(tree) if isinstance(f, ast.FunctionDef)]:
+        ys = [y for y in ast.walk(fn) if isinstance(y, ast.Yield) and y.value is not None and enclosing_function(y) is fn]
+        for y in ys:
+            loops = [p_ for p_ in _parents_in(y, fn) if isinstance(p_, (ast.For, ast.While))]
+            if not loops:
+                continue
+            L = loops[-1]          # the outermost loop around the yield
+            inside = list(ast.walk(L))
+            for nm in sorted({x.id for x in ast.walk(y.value) if isinstance(x, ast.Name)}):
+                binds = [a for a in ast.walk(fn) if isinstance(a, ast.Assign) and enclosing_function(a) is fn
+                         and any(isinstance(t, ast.Name) and t.id == nm for tt in a.targets for t in ast.walk(tt))]
+                if not binds or any(b in inside for b in binds):
+                    continue
+                created = all(isinstance(b.value, (ast.List, ast.Dict, ast.Set, ast.Tuple)) or
+                              (isinstance(b.value, ast.Call) and src(b.value.func) in ('list', 'dict', 'set', 'collections.OrderedDict', 'OrderedDict', 'defaultdict', 'collections.defaultdict', 'deque', 'collections.deque'))
+                              for b in binds)
+                if not created or any(b.lineno > L.lineno for b in binds):
+                    continue
+                if any(isinstance(x, ast.Name) and x.id == nm and isinstance(x.ctx, ast.Store) for x in inside):
+                    continue
+                refilled = any(isinstance(c, ast.Call) and isinstance(c.func, ast.Attribute) and isinstance(c.func.value, ast.Name) and c.func.value.id == nm and c.func.attr in WR for c in inside) or \
+                    any(isinstance(s_, ast.Subscript) and isinstance(s_.ctx, (ast.Store, ast.Del)) and isinstance(s_.value, ast.Name) and s_.value.id == nm for s_ in inside)
+                # handed over as it is (not copied: list(x), x[:], dict(x), tuple(x))
+                raw = any(isinstance(x, ast.Name) and x.id == nm and not (
+                    isinstance(getattr(x, '_parent', None), ast.Call) and src(x._parent.func) in ('list', 'tuple', 'dict', 'set', 'sorted', 'copy.copy', 'copy.deepcopy', 'len', 'frozenset') and x in x._parent.args)
+                    and not isinstance(getattr(x, '_parent', None), ast.Subscript) for x in ast.walk(y.value))
+                if refilled and raw:
+                    out.append((y, fn, nm, L))
+    return out
+
+
+def r_yields_fresh(repo, rep, R, targets, consequence):
+    """targets: [(file, function name)]"""
+    from .core import attach_parents
+    ex = attach_parents(ast.parse(YIELD_SHARED_EXAMPLE))
+    if [(h[2], h[0].lineno) for h in shared_yields(ex)] != [('tokens', 8)]:
+        raise AnalysisError('the shared-yield rule does not match its positive example')
+    for rel, name in targets:
+        mod = repo.module(rel)
+        fn = mod.get(name)
+        hits = [h for h in shared_yields(mod.tree) if h[1] is fn or any(p_ is fn for p_ in _parents_in(h[1], None))]
+        rep.check(not hits, R, '%s:%s %s' % (rel, hits[0][0].lineno if hits else fn.lineno, name), '%s:%s:yields-shared' % (rel, name),
+                  '%s hands out objects made for that result' % name,
+                  '%s yields `%s`, a container created once before the loop at line %s and refilled in every round: all results hold the same object -- %s'
+                  % (name, hits[0][2] if hits else '', hits[0][3].lineno if hits else 0, consequence))
